@@ -11,6 +11,7 @@ mod small;
 mod term;
 mod textfmt;
 mod undo;
+mod unicode;
 mod util;
 mod xbin;
 
@@ -29,6 +30,7 @@ fn main() {
         "c06" => xbin::c06(&a),
         "c07" => icy::c07(&a),
         "c08" => undo::c08(&a),
+        "c10" => unicode::c10(&a),
         "c11" => sauce::c11(&a),
         "c12" => opt::c12(&a),
         "c13" => layers::c13(&a),
